@@ -1645,7 +1645,243 @@ def check_c14(ctx):
     return rep.finish()
 
 
+# ------------------------------------------------------------------------------ C19 Java backend
+def java_tokens(v, key=None):
+    """native value -> prefix tokens understood by harness/java/Driver.java"""
+    if v is None:
+        return ["N"]
+    if isinstance(v, int):
+        return ["U", str(v)]
+    if isinstance(v, list):
+        if key == "payload":
+            return ["Y", str(len(v))] + [str(x) for x in v]
+        out = ["A", str(len(v))]
+        for e in v:
+            out += java_tokens(e)
+        return out
+    if isinstance(v, dict):
+        out = ["S", str(len(v))]
+        for k, x in v.items():
+            out += [k] + java_tokens(x, k)
+        return out
+    raise ValueError(v)
+
+
+def norm_keys(v):
+    """field names as the Java driver reports them: lower case, no underscores"""
+    if isinstance(v, dict):
+        return {k.replace("_", "").lower(): norm_keys(x) for k, x in v.items()}
+    if isinstance(v, list):
+        return [norm_keys(x) for x in v]
+    return v
+
+
+def build_java(ctx, units, info):
+    import concurrent.futures
+    root = os.path.join(WORK, "javagen")
+    src = os.path.join(root, "src")
+    cls = os.path.join(root, "classes")
+    os.makedirs(src, exist_ok=True)
+    os.makedirs(cls, exist_ok=True)
+    todo = [u for u in units if u.status == "accepted" and info.get(u.name, {}).get("java")]
+    # generate sources through the real backend (it writes files)
+    reqs = []
+    for u in todo:
+        d = os.path.join(src, u.mod)
+        shutil.rmtree(d, ignore_errors=True)
+        reqs.append(dict(rid=u.idx, name=u.desc["name"] + ".pdl", src=u.src, want=["java"], java_dir=d, java_pkg=u.mod))
+    res = run_driver(ctx.driver(), reqs, tag="jgen")
+    drv_src = os.path.join(VERIF, "harness", "java", "Driver.java")
+    if not os.path.exists(os.path.join(cls, "Driver.class")) or \
+            os.path.getmtime(os.path.join(cls, "Driver.class")) < os.path.getmtime(drv_src):
+        sh(["javac", "-nowarn", "-d", cls, drv_src], timeout=300)
+
+    t = time.time()
+    ok = {}
+    files_of = {}
+    for u in todo:
+        r = res.get(u.idx, {}).get("java", {})
+        if "ok" not in r:
+            u.java = "generate_failed: " + json.dumps(r)[:300]
+            continue
+        d = os.path.join(src, u.mod, u.mod)
+        files_of[u.mod] = sorted(os.path.join(d, f) for f in os.listdir(d) if f.endswith(".java"))
+        u.java = "ok"
+    h = hashlib.sha256()
+    for m in sorted(files_of):
+        for f in files_of[m]:
+            h.update(f.encode())
+            h.update(open(f, "rb").read())
+    stamp = os.path.join(root, "classes.stamp")
+    bad = {}
+    if os.path.exists(stamp) and open(stamp).read().split("\n")[0] == h.hexdigest():
+        bad = json.loads(open(stamp).read().split("\n", 1)[1])
+    else:
+        for x in os.listdir(cls):
+            if x.startswith("m") and x[1:].isdigit():
+                shutil.rmtree(os.path.join(cls, x), ignore_errors=True)
+        for attempt in range(8):
+            allf = [f for m in sorted(files_of) if m not in bad for f in files_of[m]]
+            argf = os.path.join(root, "files.txt")
+            with open(argf, "w") as f:
+                f.write("\n".join(allf))
+            p = subprocess.run(["javac", "-J-XX:+UseSerialGC", "-nowarn", "-proc:none", "-Xmaxerrs", "100000", "-d", cls,
+                                "@" + argf], stdout=subprocess.PIPE, stderr=subprocess.STDOUT, text=True)
+            if p.returncode == 0:
+                break
+            newbad = {}
+            for line in p.stdout.splitlines():
+                if ".java:" in line and ": error:" in line:
+                    m = line.split(os.sep + "src" + os.sep)[1].split(os.sep)[0]
+                    newbad.setdefault(m, line.strip()[:300])
+            if not newbad:
+                raise ToolError("javac failed:\n" + p.stdout[-3000:])
+            bad.update(newbad)
+        else:
+            raise ToolError("javac does not converge")
+        with open(stamp, "w") as f:
+            f.write(h.hexdigest() + "\n" + json.dumps(bad))
+    for u in todo:
+        if getattr(u, "java", "") == "ok":
+            if u.mod in bad:
+                u.java = "compile_failed: " + bad[u.mod]
+            else:
+                ok[u.name] = u.mod
+    log("java: %d of %d units generated+compiled in %.1fs" % (len(ok), len(todo), time.time() - t))
+    return ok, cls
+
+
+def run_java(cls, reqs, tag="java"):
+    import concurrent.futures
+    reqs = list(reqs)
+    n = max(1, min(NCPU, len(reqs) // 400 + 1))
+    shards = [reqs[i::n] for i in range(n)]
+    res = {}
+    with concurrent.futures.ThreadPoolExecutor(n) as ex:
+        for r in ex.map(lambda a: run_lines("java", a[1], "%s%d" % (tag, a[0]), encode=lambda q: q["line"], use_stdin=True,
+                                            args=["-XX:+UseSerialGC", "-XX:TieredStopAtLevel=1", "-Xss4m", "-Xmx512m", "-cp", cls, "Driver", cls],
+                                            timeout=900),
+                        enumerate(shards)):
+            res.update(r)
+    return res
+
+
+def check_c19(ctx):
+    rep = Report("C19", ctx.tier, ctx.seed)
+    units = make_units(kit.build(ctx.tier))
+    compile_units(ctx.driver(), units, ["analyze"])
+    jobs = []
+    for k, u in enumerate(units):
+        jobs.append(dict(d=k + 1, type="", anc="", mode="info", n=0))
+    _, info = run_jobs(ctx, units, jobs, rep, tag="jinfo")
+    mods, cls = build_java(ctx, units, info)
+    jobs = []
+    for k, u in enumerate(units):
+        if u.name not in mods:
+            continue
+        for t in u.types():
+            jobs.append(dict(d=k + 1, type=t, anc="", mode="enc", n=0))
+            if not u.decl(t)["parent"]:
+                jobs.append(dict(d=k + 1, type=t, anc="", mode="javaparse", n=0))
+    vecs, _ = run_jobs(ctx, units, jobs, rep)
+    usable = [v for v in vecs if not (v["k"] == "enc" and v["faults"])]
+    reqs = []
+    for v in usable:
+        rid = len(reqs)
+        m = mods[v["unit"].name]
+        if v["k"] == "enc":
+            toks = java_tokens(node_to_native(v["val"]))
+            reqs.append(dict(rid=rid, v=v, line="%d B %s %s %s" % (rid, m, v["type"], " ".join(toks))))
+        else:
+            reqs.append(dict(rid=rid, v=v, line="%d P %s %s %s" % (rid, m, v["type"], hexs(v["bytes"]) or "-")))
+    t_run = time.time()
+    obs = run_java(cls, reqs)
+    log("java run: %d requests in %.1fs" % (len(reqs), time.time() - t_run))
+
+    def viol(v, kind, detail):
+        msg = ""
+        if isinstance(detail, dict) and isinstance(detail.get("err"), dict):
+            import re
+            msg = "|" + detail["err"].get("cls", "") + ":" + re.sub(r"[0-9]+", "N", detail["err"].get("msg", ""))[:50]
+        fp = "C19|java|%s|%s|%s|%s%s" % (v["unit"].name, v["type"], kind, ":".join(str(x) for x in (v.get("label") or [])), msg)
+        rp = {"backend": "java", "desc": v["unit"].desc, "pdl": v["unit"].src, "type": v["type"], "op": v["k"],
+              "label": v.get("label"), "observed": detail}
+        if v["k"] == "enc":
+            rp["stimulus"] = {"value": node_to_native(v["val"])}
+            rp["expected"] = {"bytes": hexs(v["bytes"])}
+        else:
+            rp["stimulus"] = {"bytes": hexs(v["bytes"])}
+            rp["expected"] = {"faults": v["faults"], "outcomes": [
+                {"cls": o["cls"], "reject": o["reject"], "value": node_to_native(o["val"])} for o in v["outcomes"]]}
+        rep.violation(fp, rp)
+
+    for q in reqs:
+        v = q["v"]
+        o = obs.get(q["rid"], {})
+        r = o.get("r", {})
+        rep.validated()
+        if _abn(r) and r.get("abnormal") in ("OutOfMemoryError", "StackOverflowError") and v["k"] != "enc":
+            # a Throwable ends the parse: C19 only demands "an exception rather than a wrong object"
+            r = {"err": {"cls": r["abnormal"], "msg": ""}}
+        if "abnormal" in o or _abn(r):
+            viol(v, "abnormal:" + str((r if _abn(r) else o).get("abnormal"))[:40], o.get("stderr") or r)
+            continue
+        if "harness" in r:
+            rep.notes["harness_errors"] = rep.notes.get("harness_errors", 0) + 1
+            rep.notes.setdefault("harness_error_example", json.dumps(r)[:300])
+            continue
+        if v["k"] == "enc":
+            if "unconstructible" in r:
+                rep.notes["unconstructible"] = rep.notes.get("unconstructible", 0) + 1
+                rep.notes.setdefault("unconstructible_example", json.dumps(r)[:300])
+                continue
+            if "ok" not in r:
+                viol(v, "toBytes_throws", r)
+                continue
+            ok = r["ok"]
+            if ok["bytes"] != hexs(v["bytes"]):
+                viol(v, "toBytes_bytes", {"expected": hexs(v["bytes"]), "got": ok["bytes"]})
+                continue
+            back = ok.get("back", {})
+            if "err" in back:
+                viol(v, "fromBytes_of_toBytes_throws", back)
+            elif not back.get("equals"):
+                viol(v, "fromBytes_of_toBytes_not_equal", back)
+        else:
+            outs = v["outcomes"]
+            if any("Unsupported" in (v["faults"] or []) for _ in [0]):
+                continue
+            if "err" in r:
+                if not any(x["reject"] for x in outs):
+                    viol(v, "fromBytes_rejects", r)
+            elif "ok" in r:
+                ok = r["ok"]
+                acc = [x for x in outs if not x["reject"]]
+                if not acc:
+                    viol(v, "fromBytes_accepts:" + "+".join(sorted(v["faults"])), ok)
+                    continue
+                got = ok["val"]
+                cname = ok["cls"].lower()
+                match = False
+                for x in acc:
+                    names = {x["cls"].replace("_", "").lower(), "unknown" + x["cls"].replace("_", "").lower()}
+                    if cname in names and subset_equal(norm_keys(node_to_native(x["val"])), got):
+                        match = True
+                if not match:
+                    viol(v, "fromBytes_wrong_object:%s" % ok["cls"],
+                         {"got": ok, "admissible": [{"cls": x["cls"], "value": node_to_native(x["val"])} for x in acc]})
+        if rep.coverage["traces_validated_against_impl"] % 997 == 1:
+            rep.sample({"desc": v["unit"].name, "type": v["type"], "op": v["k"], "label": v.get("label"),
+                        "stimulus": hexs(v["bytes"]) if v["k"] != "enc" else node_to_native(v["val"])})
+    rep.notes["java_units"] = len(mods)
+    rep.notes["java_build_failures"] = [u.name + ": " + u.java[:200] for u in units if getattr(u, "java", "ok") != "ok"][:10]
+    rep.assumptions += ["Java API binding (spec/PdlInherit.tla JavaOutcomes): admissible results are a set (first match wins in the code)",
+                        "rejection = any exception"]
+    return rep.finish()
+
+
 CHECKS = {p: (lambda ctx, p=p: check_rust_codec(p, ctx)) for p in CODEC_MODES}
+CHECKS["C19"] = check_c19
 CHECKS["C14"] = check_c14
 CHECKS["C13"] = check_c13
 CHECKS["C17"] = check_c17
